@@ -347,6 +347,11 @@ func fromCtyMap(val cty.Value, target reflect.Value, path cty.Path) error {
 			return nil
 		}
 
+		keyType := target.Type().Key()
+		if keyType.Kind() != reflect.String {
+			return path.NewErrorf("can't decode into a Go map with key type %s; key type must be string", keyType)
+		}
+
 		tv := reflect.MakeMap(target.Type())
 		et := target.Type().Elem()
 
@@ -363,7 +368,7 @@ func fromCtyMap(val cty.Value, target reflect.Value, path cty.Path) error {
 			targetElem := reflect.New(et)
 			err = fromCtyValue(val, targetElem, path)
 
-			tv.SetMapIndex(reflect.ValueOf(ks), targetElem.Elem())
+			tv.SetMapIndex(reflect.ValueOf(ks).Convert(keyType), targetElem.Elem())
 
 			return err != nil
 		})
